@@ -1024,3 +1024,207 @@ PLANS["C08"] = dict(
                  "process-wrap KillOnDrop kills a child whose handle is dropped (abort); real process groups are exercised by the quit-real stream only"],
     partial="the time bound is not a Lean theorem: it follows informally from graceful_stop_step + timer_fires + expiry_kills + c08_delete_after_stop and is checked as an oracle on every scenario; process-group members surviving a graceful quit is a recorded known finding (F15)",
 )
+
+# ------------------------------------------------------------------------------------------------
+# C05 on-busy policy (CLI action handler)
+
+C05_FIXED = """dn --on-busy-update=do-nothing E100 init;a:30;chg;a:30;chg;a:200;chg;a:300
+rs --on-busy-update=restart S20 init;a:30;chg;a:100;chg;a:300
+rs2 --on-busy-update=restart,--stop-timeout=50ms I init;a:30;chg;a:300
+rs3 -r,--stop-signal=SIGINT,--stop-timeout=80ms I,S10 init;a:30;chg;a:40;chg;a:300
+sg --on-busy-update=signal,--signal=SIGUSR1 I init;a:30;chg;a:30;chg;a:100
+sg2 --signal=SIGHUP,--stop-signal=SIGUSR2 I init;a:30;chg;a:100
+sg3 --on-busy-update=signal I init;a:30;chg;a:100
+qu --on-busy-update=queue E100 init;a:30;chg;a:10;chg;a:300;chg;a:300
+qu2 --on-busy-update=queue E100,E50,E50 init;a:30;chg;a:90;chg;a:5;chg;a:400
+pp --on-busy-update=queue E100 a:50;chg;a:300
+atexit --on-busy-update=restart E100,E100,E100 init;a:100;chg;a:400
+atexitq --on-busy-update=queue E100,E100,E100 init;a:100;chg;a:400
+fail --on-busy-update=restart F,E50 init;a:20;chg;a:200""".splitlines()
+
+def c05_cases(seed, n):
+    r = random.Random(seed * 977 + 5)
+    out = list(C05_FIXED)
+    # the last change arrives at the very instant the command exits by itself: whichever the job task notices first, a run must follow
+    for j in range(60):
+        dly = r.choice([10, 20, 50, 100, 150])
+        mode = r.choice(["restart", "restart", "queue"])
+        tail = r.choice(["I", "E300", "S10"])
+        out.append(f"x{j} --on-busy-update={mode}{r.choice(['', ',--stop-timeout=50ms'])} E{dly},{tail} init;a:{dly};chg;a:600")
+    # --delay-run sleeps inside the job task: the command exits unnoticed during the sleep, the query then sees a stale "running"
+    for j in range(40):
+        dl = r.choice([40, 80, 120]); mode = r.choice(["restart", "restart", "queue", "signal", "do-nothing"])
+        out.append(f"z{j} --on-busy-update={mode},--delay-run={dl}ms E{dl + 70},{r.choice(['I', 'E300'])} init;a:{dl + 90};chg;a:1200")
+    for i in range(n):
+        mode = r.choice(["do-nothing", "queue", "restart", "signal"])
+        flags = ["--on-busy-update=" + mode] if r.random() < 0.8 else ({"restart": ["-r"], "signal": ["--signal=" + r.choice(["SIGUSR1", "SIGHUP"])]}.get(mode, ["--on-busy-update=" + mode]))
+        if r.random() < 0.3: flags.append("--stop-signal=" + r.choice(["SIGINT", "SIGUSR2", "SIGTERM", "SIGQUIT"]))
+        if r.random() < 0.5: flags.append("--stop-timeout=" + r.choice(["0ms", "20ms", "50ms", "120ms"]))
+        if r.random() < 0.2: flags.append("--delay-run=" + r.choice(["20ms", "50ms", "100ms"]))
+        if mode == "signal" and r.random() < 0.3 and not any(f.startswith("--signal") for f in flags): flags.append("--signal=" + r.choice(["SIGUSR1", "SIGHUP", "SIGINT"]))
+        behs = []
+        for _ in range(r.randint(1, 4)):
+            k = r.random()
+            behs.append(f"E{r.choice([0, 20, 50, 100, 100, 200])}" if k < 0.45 else f"S{r.choice([0, 10, 30, 100])}" if k < 0.7 else "I" if k < 0.93 else "F")
+        ops = []
+        if r.random() < 0.85: ops.append("init"); ops.append(r.choice(["y", "a:10", "a:30", "a:50", "a:100"]))
+        for _ in range(r.randint(1, 6)):
+            ops.append("chg")
+            # gaps: back-to-back, inside a run, at the moment of exit (multiples of the exit delays), during the grace period
+            ops.append(r.choice(["y", "a:0", "a:5", "a:10", "a:20", "a:30", "a:50", "a:50", "a:100", "a:100", "a:150", "a:400"]))
+        ops.append("a:" + r.choice(["300", "600", "1500"]))
+        out.append(f"k{seed}_{i} {','.join(flags)} {','.join(behs)} {';'.join(ops)}")
+    return out
+
+def c05_oracle(case, trace):
+    cid, flags, behs, ops = case.split(" ")
+    fl = flags.split(",")
+    mode = "do-nothing"
+    for f in fl:
+        if f.startswith("--signal="): mode = "signal"
+    for f in fl:
+        if f in ("-r", "--restart"): mode = "restart"
+        if f.startswith("--on-busy-update="): mode = f.split("=")[1]
+    ev = [e.split(":") for e in trace.split("|") if e]
+    out = []
+    live = set()
+    for p in ev:
+        if p[1] == "spawn":
+            if live: out.append(f"runs overlap: {p[2]} spawned at {p[0]} ms while {sorted(live)} not reaped")
+            live.add(p[2])
+        elif p[1] == "reaped": live.discard(p[2])
+    if mode == "do-nothing" and any(p[1] in ("signal", "kill") for p in ev): out.append("do-nothing mode signalled or killed the command")
+    if mode == "signal" and any(p[1] == "kill" for p in ev): out.append("signal mode killed the command")
+    if mode == "queue" and any(p[1] in ("signal", "kill") for p in ev): out.append("queue mode signalled or killed the command")
+    # freshness: the last change is followed by a run (attempt) that started after it — restart always; queue when every run ends by itself soon
+    now = 0; last_chg = None
+    for o in ops.split(";"):
+        if o.startswith("a:"): now += int(o[2:])
+        elif o in ("chg", "init"): last_chg = now
+    final = int(ops.split(";")[-1][2:])
+    ends_soon = all(b[0] == "E" and int(b[1:]) <= 200 for b in behs.split(","))
+    tmo = 10000
+    for f in fl:
+        if f.startswith("--stop-timeout="): tmo = int(f.split("=")[1][:-2])
+    # --delay-run sleeps inside the job task once per event: everything is pushed back by up to (events x delay)
+    nev = sum(1 for o in ops.split(";") if o in ("chg", "init"))
+    backlog = 0
+    for f in fl:
+        if f.startswith("--delay-run="): backlog = nev * int(f.split("=")[1][:-2])
+    if last_chg is not None and ((mode == "restart" and (final >= tmo + backlog + 250 or (not live and final >= backlog + 250))) or (mode == "queue" and ends_soon and final >= 600 + backlog)):
+        if not any(p[1] in ("spawn", "spawnfail") and int(p[0]) >= last_chg for p in ev):
+            out.append(f"{mode} mode: the last change (at {last_chg} ms) is not followed by a run that started after it")
+    return out
+
+def c05_streams(ctx):
+    n = 12000 if ctx["thorough"] else 1200
+    s = core.StreamResult("cli-action")
+    d = core.WORK / "C05" / "cli-action"; d.mkdir(parents=True, exist_ok=True)
+    cases = c05_cases(ctx["seed"], n)
+    (d / "cases.txt").write_text("\n".join(cases) + "\n")
+    k = 12
+    chunks = [cases[i::k] for i in range(k)]
+    def run_chunk(ch):
+        p = subprocess.run([str(core.TARGET / "wxcliaction")], input="\n".join(ch) + "\n", capture_output=True, text=True, timeout=3000, cwd=str(d))
+        return p.returncode, p.stdout.splitlines(), p.stderr[-500:]
+    with ThreadPoolExecutor(k) as ex: res = list(ex.map(run_chunk, chunks))
+    impl = {}
+    for ch, (rc, lines, err) in zip(chunks, res):
+        if rc != 0 or len(lines) != len(ch): s.error = f"wxcliaction failed rc={rc} ({len(lines)}/{len(ch)}): {err}"; return [s]
+        for c, l in zip(ch, lines): impl[c] = l
+    (d / "impl.txt").write_text("\n".join(impl[c] for c in cases) + "\n")
+    ok, err = core.run_driver(["cli"], d / "cases.txt", d / "model.txt")
+    if not ok: s.error = "wxdriver cli failed: " + err[-600:]; return [s]
+    model = core.read_lines(d / "model.txt")
+    s.evaluations = len(cases)
+    for i, (c, mo) in enumerate(zip(cases, model)):
+        im = impl[c].split(" ", 1)[1] if " " in impl[c] else ""
+        tr = "|".join(e for e in im.split("|") if e and not re.match(r"\d+:chg\d+$", e))
+        alts = (mo.split(" ", 1)[1] if " " in mo else "").split(" ## ")
+        if len(alts) > 1: s.bump("racy (model admits several traces)")
+        if tr not in alts: s.disagreements.append((i, c, tr, " ## ".join(alts[:3])) if len(s.disagreements) < 60 else (i, "", "", ""))
+        for what in c05_oracle(c, tr): s.oracle_failures.append((i, c, tr, what))
+        for f in c.split(" ")[1].split(","): s.bump(f.split("=")[0] + ("=" + f.split("=")[1] if f.startswith("--on-busy") else ""))
+        if tr.count("spawn:") >= 2: s.nontrivial.add(hashlib.md5((c.split(" ", 1)[1] + tr).encode()).digest()[:8])
+        if i % max(1, len(cases) // 3) == 0 and len(s.samples) < 3: s.samples.append({"case": c, "impl": tr[:300], "model": alts[0][:300]})
+    s.note = ("the CLI's REAL action handler (hook H1: args_from(argv) -> make_config -> Watchexec::with_config) on a paused current-thread runtime with simulated children (H1's extra spawn "
+              "hook): the four --on-busy-update modes and the -r / --signal shorthands x --stop-signal x --stop-timeout x child behaviours x change bursts placed before start, mid-run, at "
+              "the moment of exit, during the grace period, back-to-back; the child call log must be one of the traces of Ca.react composed with the job-task model. "
+              "--delay-run is modelled as the job task sleeping (taking no turn) after it executes the delay closure. Not covered here: the start-up event of run_watchexec "
+              "(the harness always passes --postpone and sends it itself)")
+    return [s]
+
+def c05_e2e(ctx):
+    """End to end, real time, the built binary: queue mode with a change made while the queued run is starting (the
+    window is held open by not draining stderr, so the job task blocks inside the 90 KB `[Running: …]` banner write —
+    a legal schedule). The change must be followed by a third run. Which task wins once the write completes is up to
+    the scheduler, so several attempts run side by side; on code that keeps the property none of them may lose the change."""
+    import threading, time, shutil
+    s = core.StreamResult("e2e-queue")
+    base = core.WORK / "C05" / "e2e"
+    def attempt(k):
+        d = base / f"t{k}"; shutil.rmtree(d, ignore_errors=True); (d / "proj").mkdir(parents=True); (d / "home").mkdir()
+        log = d / "log"; f = d / "proj" / "f"; f.write_text("0")
+        script = f'echo "START $(date +%s.%N)" >> {log}; sleep 1; echo "END $(date +%s.%N)" >> {log}'
+        cmd = [str(core.TARGET / "wxcli-main"), "--on-busy-update=queue", "--project-origin", str(d / "proj"), "-w", str(d / "proj"), "--no-vcs-ignore", "-n", "--", "sh", "-c", script, "sh", "A" * 90000]
+        # the whole process is pinned to ONE cpu (8 tokio workers): when the unblocked job task raises the flag that wakes the
+        # follow-up task, no other worker thread can run before the job task has gone on to its next control — this makes the
+        # outcome of the race a property of the code rather than of the machine's load
+        cpus = sorted(os.sched_getaffinity(0)); cpu = cpus[(1 + k) % len(cpus)]
+        p = subprocess.Popen(cmd, stderr=subprocess.PIPE, stdout=subprocess.DEVNULL, env=dict(os.environ, HOME=str(d / "home"), TOKIO_WORKER_THREADS="8"), cwd=str(d / "proj"),
+                             preexec_fn=lambda: os.sched_setaffinity(0, {cpu}))
+        paused = threading.Event(); stop = [False]
+        def reader():
+            fd = p.stderr.fileno()
+            while not stop[0]:
+                if paused.is_set(): time.sleep(0.01); continue
+                try: b = os.read(fd, 65536)
+                except OSError: break
+                if not b: break
+        threading.Thread(target=reader, daemon=True).start()
+        t0 = time.time()
+        def at(x):
+            dl = t0 + x - time.time()
+            if dl > 0: time.sleep(dl)
+        at(0.35); f.write_text("c1")       # during run 1: a follow-up start is queued
+        at(0.7); paused.set()              # stop draining stderr: run 2's banner write will block the job task
+        at(1.45); f.write_text("c2"); t_c2 = time.time()   # run 2 has been spawned, its banner is stuck: the window
+        at(1.9); paused.clear()
+        at(4.6)
+        p.terminate()
+        try: p.wait(timeout=10)
+        except Exception: p.kill()
+        stop[0] = True
+        lines = log.read_text().splitlines() if log.exists() else []
+        starts = [float(l.split()[1]) for l in lines if l.startswith("START")]
+        # (number of runs, runs started before the change, runs started after it, start times)
+        return (len(starts), sum(1 for t in starts if t < t_c2), sum(1 for t in starts if t >= t_c2), " ".join(f"{t - t0:.2f}" for t in starts))
+    n = 6 if ctx["thorough"] else 3
+    with ThreadPoolExecutor(n) as ex: results = list(ex.map(attempt, range(n)))
+    s.evaluations = n
+    s.samples.append({"attempts (runs, started before the last change, started after it, start times)": results})
+    s.nontrivial.add(b"e2e-queue"); s.nontrivial.add(b"stalled-stderr")
+    # an attempt counts when the scenario was really set up: run 2 had been started before the change was made
+    setup_ok = [r for r in results if r[1] >= 2]
+    lost = [r for r in setup_ok if r[2] == 0]
+    s.bump("attempts set up", len(setup_ok)); s.bump("attempts that lost the change", len(lost))
+    if lost:
+        s.oracle_failures.append((0, "e2e queue mode, change during the start of the queued run (stderr not drained)", str(results),
+                                  f"queue mode: the last change is not followed by a run that started after it, in {len(lost)} of {len(setup_ok)} end-to-end attempts (start times per attempt: {[r[3] for r in results]})"))
+    s.note = (f"built binary, real files, real time: {len(setup_ok)} of {n} attempts set the scenario up (two runs started before the last change), {len(lost)} lost the change; "
+              "attempts where the scenario did not form are inconclusive and not counted")
+    return s
+
+PLANS["C05"] = dict(
+    modules=["Wx.Cli.Action", "Wx.Queue.Props", "Wx.Job.C04Sim", "Wx.Job.C06"],
+    theorems=["Ca.react_idle", "Ca.react_doNothing", "Ca.react_signal", "Ca.react_restart", "Ca.react_queue_first", "Ca.react_queue_again", "Ca.react_no_forceful",
+              "Qm.perRun_fresh", "Qm.f10_today", "Qm.reorder_insufficient", "Jm.c04", "Jm.graceful_restart_step", "Jm.graceful_stop_step"],
+    bins=[("cli", ["wxcliaction", "wxcli-main"])],
+    streams=lambda ctx: c05_streams(ctx) + [c05_e2e(ctx)],
+    sources=["crates/cli/src/config.rs", "crates/cli/src/lib.rs", "crates/cli/src/args/events.rs", "crates/supervisor/src/job/job.rs"],
+    rule="a case is one script (CLI flags, child behaviours, init / change / advance ops); non-trivial = at least two runs are started; distinct by (script, observation)",
+    assumptions=["the action handler's reaction is modelled as one function of (mode, job state when the query closure runs, queued-for record) composed with the job-task model by the driver",
+                 "queue-mode freshness over ALL interleavings of handler, job task and follow-up tasks is proved on the abstract protocol model Wx/Queue (perRun_fresh); its tie to the code is this stream (deterministic schedules) plus the end-to-end stalled-stderr replay recorded in DESIGN.md",
+                 "clap parsing and the normalise() functions run for real (hook H1)"],
+    partial="the start-up event is outside the model; the all-interleavings freshness theorem is about the abstract queue protocol, not about the composed model",
+)
